@@ -24,7 +24,7 @@ ASSUMPTIONS = ['clang++ -std=c++17 decodes narrow string literals with UTF-8 exe
                'XML shapes that crash extract_docstring on the pinned tree (D27) are flagged']
 MIN_EVENTS = {'quick': {'literals_decoded': 300, 'extract_docstring_calls': 600},
               'thorough': {'literals_decoded': 6000, 'extract_docstring_calls': 12000}}
-NONPRINTABLE_OK = os.environ.get('VERIF_C17_NONPRINTABLE') == '1'    # D17 (default on once the escaper is repaired)
+NONPRINTABLE_OK = True    # texts with non-printable characters (D17, repaired)
 FAULTS = [None, None, None, 'no-index', 'no-class-file', 'truncated', 'dropped-from-index', 'no-folder']
 
 
